@@ -27,20 +27,13 @@ the Lean models in by giving another `Ext`.
 namespace Mk
 open Py
 
-/-- answer of `Specifier(op ++ rhs).contains(lhs, prereleases=True)` as `_eval_op` sees it -/
-inductive SpecAns
-  /-- `Specifier(op ++ rhs)` raises `InvalidSpecifier` -/
-  | notSpec
-  /-- the specifier is valid but `lhs` is not a valid version: `contains` raises `InvalidVersion` -/
-  | invalidVersion
-  /-- the specifier is valid, `lhs` is a valid version, `contains` returns `b` -/
-  | val (b : Bool)
-  deriving DecidableEq, Repr
-
 /-- the two functions the marker code needs from elsewhere -/
 structure Ext where
-  /-- `specMatch op rhs lhs` = outcome of `Specifier(op ++ rhs).contains(lhs, prereleases=True)` -/
-  specMatch : Str → Str → Str → SpecAns
+  /-- `specMatch op rhs lhs` = `some b` when `Specifier(op ++ rhs)` is a valid specifier, `lhs` is a valid
+  version and `Specifier(op ++ rhs).contains(lhs, prereleases=True)` returns `b`; `none` when the
+  constructor raises `InvalidSpecifier` or `contains` raises `InvalidVersion` (`_eval_op` treats both alike:
+  it falls back to the string operator) -/
+  specMatch : Str → Str → Str → Option Bool
   /-- `packaging.utils.canonicalize_name` -/
   canonName : Str → Str
 
@@ -48,7 +41,7 @@ structure Ext where
 
 /-- exceptions that are *not* documented for the entry point at hand -/
 inductive RawExc
-  | syntaxError | unicodeEncodeError | keyError | invalidVersion | attributeError | typeError | assertionError
+  | syntaxError | unicodeEncodeError | keyError | attributeError | typeError | assertionError
   deriving DecidableEq, Repr
 
 inductive Err
@@ -56,6 +49,8 @@ inductive Err
   | invalidMarker
   /-- `UndefinedComparison` (documented for `evaluate`) -/
   | undefinedComparison
+  /-- `UndefinedEnvironmentName` (documented for `evaluate`) -/
+  | undefinedEnvironmentName
   | raw (e : RawExc)
   /-- the model's recursion fuel ran out (never on inputs the driver sizes fuel for) -/
   | fuel
@@ -297,7 +292,10 @@ def parseVar (st : σ) : Res (Node × σ) :=
   | some (t, st') => .ok (processEnvVar t, st')
   | none =>
     match S.check .quoted st with
-    | some (t, st') => (pyStrLit t).map fun v => (.val v, st')
+    | some (t, st') =>
+      (match pyStrLit t with                      -- `except (SyntaxError, ValueError): raise_syntax_error`
+       | .ok v => .ok (.val v, st')
+       | .error _ => .error .invalidMarker)
     | none => .error .invalidMarker
 
 /-- `_parse_marker_op` -/
@@ -386,23 +384,32 @@ def isExtraVar : Node → Bool
   | .var s => s == s_extra
   | .val _ => false
 
-/-- only `results[0]`, and only if it is a tuple -/
+/-- one tuple: the operand compared with `extra` becomes `Value(canonicalize_name(…))` -/
+def normAtom (X : Ext) (a : Atom) : Atom :=
+  if isExtraVar a.lhs then ⟨a.lhs, a.op, .val (X.canonName a.rhs.value)⟩
+  else if isExtraVar a.rhs then ⟨.val (X.canonName a.lhs.value), a.op, a.rhs⟩
+  else a
+
+mutual
+def normM (X : Ext) : M → M
+  | .atom a => .atom (normAtom X a)
+  | .bool s => .bool s
+  | .list l => .list (normalizeExtra X l)
+/-- `_normalize_extra_values`: every tuple, at every depth -/
 def normalizeExtra (X : Ext) : List M → List M
-  | .atom a :: rest =>
-    (if isExtraVar a.lhs then .atom ⟨a.lhs, a.op, .val (X.canonName a.rhs.value)⟩
-     else if isExtraVar a.rhs then .atom ⟨.val (X.canonName a.lhs.value), a.op, a.rhs⟩
-     else .atom a) :: rest
-  | l => l
+  | [] => []
+  | m :: ms => normM X m :: normalizeExtra X ms
+end
 
 /-- `Marker(src)._markers` -/
 def mkMarker (X : Ext) (src : Str) : Res (List M) := (parse src).map (normalizeExtra X)
 
 /-! ## `_format_marker`, `serialize`, `__str__`, `__eq__`, `__hash__` -/
 
-/-- `Variable.serialize` / `Value.serialize`: the value is always delimited by `"` -/
+/-- `Variable.serialize` / `Value.serialize`: `'…'` when the value contains `"`, else `"…"` -/
 def Node.serialize : Node → Str
   | .var s => s
-  | .val s => [34] ++ s ++ [34]
+  | .val s => if s.contains 34 then [39] ++ s ++ [39] else [34] ++ s ++ [34]
 
 def Atom.serialize (a : Atom) : Str :=
   a.lhs.serialize ++ [32] ++ a.op ++ [32] ++ a.rhs.serialize
@@ -420,11 +427,10 @@ def fmtM : M → Bool → Str
   | .atom a, _ => a.serialize
   | .bool s, _ => s
   | .list l, first => fmtL l first
-/-- `_format_marker(marker, first)` for a list; the single-element short cut calls itself with the
-default `first=True` -/
+/-- `_format_marker(marker, first)` for a list; the single-element short cut passes `first` on -/
 def fmtL : List M → Bool → Str
   | [.atom a], _ => a.serialize
-  | [.list l], _ => fmtL l true
+  | [.list l], first => fmtL l first
   | [], first => wrapParens first []
   | [.bool s], first => wrapParens first s
   | m₁ :: m₂ :: ms, first => wrapParens first (join [32] (fmtM m₁ false :: fmtM m₂ false :: fmtEach ms))
@@ -494,9 +500,8 @@ def applyOp (id : Nat) (l r : Str) : Option Bool :=
 /-- `_eval_op` -/
 def evalOp (X : Ext) (lhs op rhs : Str) : Res Bool :=
   match X.specMatch op rhs lhs with
-  | .val b => .ok b
-  | .invalidVersion => .error (.raw .invalidVersion)
-  | .notSpec =>
+  | some b => .ok b
+  | none =>
     match Gen.MarkerTok.opTable.lookup op with
     | none => .error .undefinedComparison
     | some id => match applyOp id lhs rhs with
@@ -507,9 +512,10 @@ def evalOp (X : Ext) (lhs op rhs : Str) : Res Bool :=
 def normalize (X : Ext) (l r key : Str) : Str × Str :=
   if key == s_extra then (X.canonName l, X.canonName r) else (l, r)
 
+/-- `_get_env` -/
 def lookupEnv (env : Env) (k : Str) : Res Str :=
   match env.get? k with
-  | none => .error (.raw .keyError)
+  | none => .error .undefinedEnvironmentName
   | some none => .error (.raw .typeError)      -- a `None` for a key other than `extra`: outside the domain
   | some (some v) => .ok v
 
